@@ -257,6 +257,7 @@ static void case_legacy(int idx)
     printf("INFO legacy %s\n", src);
     hk_stat("legacy_files", 1);
     legacy_sds(path, base);
+    ndg_sd_audit(path, "xapi-legacy-sds", 0, 0, 1); /* old-style files: the attributes SD makes of strings, range, calibration, labels, descriptions */
     legacy_images(path, base);
     legacy_annotations(path, base);
     free((void *)path);
